@@ -1,16 +1,21 @@
 // C19 harness (package timesafeguard, injected with -overlay by /verif/checks/c19.py).
 //
 // TestVerifC19Cases   explicit cases (TLC-generated grid behaviours, +-1 ns
-//                     threshold cases, lattice random cases) -> real
-//                     synchronizedWithNetwork / timeInSync; ND-JSON out.
+//
+//	threshold cases, lattice random cases) -> real
+//	synchronizedWithNetwork / timeInSync; ND-JSON out.
+//
 // TestVerifC19Bulk    seeded random nanosecond-resolution cases (huge offsets,
-//                     negative, huge delays), judged in-process with exact
-//                     (math/big) arithmetic; first K cases and every anomaly
-//                     are written out for independent re-judging.
+//
+//	negative, huge delays), judged in-process with exact
+//	(math/big) arithmetic; first K cases and every anomaly
+//	are written out for independent re-judging.
+//
 // TestVerifC19Net     the exported entry points that main() calls
-//                     (SynchronizedWithNetwork, SynchronizedWithMasterAndNetwork)
-//                     against in-process HTTPS status servers with shifted
-//                     clocks and dead peers.
+//
+//	(SynchronizedWithNetwork, SynchronizedWithMasterAndNetwork)
+//	against in-process HTTPS status servers with shifted
+//	clocks and dead peers.
 //
 // The harness only records; verdicts are drawn by the Python side (and TLC).
 package timesafeguard
@@ -30,6 +35,7 @@ import (
 	"net/http"
 	"net/http/httptest"
 	"os"
+	"os/exec"
 	"path/filepath"
 	"sort"
 	"strconv"
@@ -49,11 +55,11 @@ type c19InPeer struct {
 	// NoResult (with Zero): the peer was reached but supplied no time, i.e.
 	// Start and End are set and Result is the zero time; without it a zero
 	// slot is the all-zero timeResult that collectTime leaves on an error.
-	NoResult bool `json:"noresult,omitempty"`
-	Start int64 `json:"start"`
-	Delta int64 `json:"delta"`
-	D1    int64 `json:"d1"`
-	D2    int64 `json:"d2"`
+	NoResult bool  `json:"noresult,omitempty"`
+	Start    int64 `json:"start"`
+	Delta    int64 `json:"delta"`
+	D1       int64 `json:"d1"`
+	D2       int64 `json:"d2"`
 }
 
 type c19InCase struct {
@@ -70,9 +76,9 @@ type c19InCase struct {
 
 type c19OutPeer struct {
 	Zero   bool     `json:"zero"`
-	S      [2]int64 `json:"s"` // Start  (unix sec, nsec)
-	E      [2]int64 `json:"e"` // End
-	R      [2]int64 `json:"r"` // Result
+	S      [2]int64 `json:"s"`          // Start  (unix sec, nsec)
+	E      [2]int64 `json:"e"`          // End
+	R      [2]int64 `json:"r"`          // Result
 	DriftR string   `json:"drift_real"` // what the real worstCaseDrift() returned, ns
 	Str    string   `json:"str,omitempty"`
 }
@@ -351,10 +357,10 @@ func TestVerifC19Cases(t *testing.T) {
 type c19BulkPeer struct {
 	Zero     bool     `json:"zero"`
 	NoResult bool     `json:"noresult,omitempty"`
-	S       [2]int64 `json:"s"`
-	DeltaNs string   `json:"delta_ns"`
-	D1      int64    `json:"d1_ns"`
-	D2      int64    `json:"d2_ns"`
+	S        [2]int64 `json:"s"`
+	DeltaNs  string   `json:"delta_ns"`
+	D1       int64    `json:"d1_ns"`
+	D2       int64    `json:"d2_ns"`
 }
 
 type c19BulkCase struct {
@@ -457,8 +463,8 @@ func TestVerifC19Bulk(t *testing.T) {
 		results := make([]timeResult, np)
 		zero := make([]bool, np)
 		in := make([]c19BulkPeer, np)
-		trueBad := make([]bool, np)  // |delta| >= 2 s
-		measBad := make([]bool, np)  // exact |Result-Start| + (End-Start) >= 2 s
+		trueBad := make([]bool, np)                                                              // |delta| >= 2 s
+		measBad := make([]bool, np)                                                              // exact |Result-Start| + (End-Start) >= 2 s
 		start0 := time.Unix(946684800+rng.Int63n(100*365*24*3600), rng.Int63n(1000000000)).UTC() // 2000..2100
 		for i := 0; i < np; i++ {
 			if rng.Intn(100) < 15 {
@@ -596,7 +602,7 @@ type c19Node struct {
 	srv    *httptest.Server
 	addr   string
 	offset time.Duration
-	noTime bool // answers, but without CurrentTime
+	noTime bool          // answers, but without CurrentTime
 	delay  time.Duration // request/response delay of this peer
 	peers  []string
 	hits   int
@@ -650,12 +656,15 @@ func TestVerifC19Net(t *testing.T) {
 	}
 	log.SetOutput(io.Discard)
 	flag.Set("logtostderr", "true") // glog must not create files in the temp dir
-	fout, err := os.Create(filepath.Join(scratch, "c19_net_out.ndjson"))
-	if err != nil {
-		t.Fatal(err)
+	var enc *json.Encoder
+	if os.Getenv("VERIF_C19_NET_ONE") == "" { // the children must not truncate the parent's output
+		fout, err := os.Create(filepath.Join(scratch, "c19_net_out.ndjson"))
+		if err != nil {
+			t.Fatal(err)
+		}
+		defer fout.Close()
+		enc = json.NewEncoder(fout)
 	}
-	defer fout.Close()
-	enc := json.NewEncoder(fout)
 
 	const self = "127.0.0.1:1"
 	const pw = "verif"
@@ -694,8 +703,52 @@ func TestVerifC19Net(t *testing.T) {
 		slow.delay = 160 * time.Millisecond
 		scens = append(scens, slow)
 	}
-	for _, sc := range scens {
+	// Every (scenario, entry point) runs in a child process of this test binary: the code under test ends the
+	// process (log.Fatalf) when it cannot reach the join target, and a tree that leaves requests in flight must
+	// not disturb the next scenario.  The child writes its record before the call (verdict "exit") and again
+	// after it; the parent copies the last one.
+	one := os.Getenv("VERIF_C19_NET_ONE")
+	if one == "" {
+		for si, sc := range scens {
+			for _, entry := range []string{"SynchronizedWithNetwork", "SynchronizedWithMasterAndNetwork"} {
+				tmp := filepath.Join(scratch, "c19_net_one.json")
+				os.Remove(tmp)
+				cmd := exec.Command(os.Args[0], "-test.run", "^TestVerifC19Net$")
+				cmd.Env = append(os.Environ(), fmt.Sprintf("VERIF_C19_NET_ONE=%d:%s", si, entry), "VERIF_C19_NET_ONE_OUT="+tmp)
+				cout, cerr := cmd.CombinedOutput()
+				b, err := os.ReadFile(tmp)
+				if err != nil {
+					t.Fatalf("scenario %s/%s: child left no record (%v): %s", sc.name, entry, cerr, cout)
+				}
+				var out c19NetOut
+				if err := json.Unmarshal(b, &out); err != nil {
+					t.Fatalf("scenario %s/%s: bad record: %v", sc.name, entry, err)
+				}
+				if out.Verdict == "exit" {
+					out.Err = fmt.Sprintf("the process ended inside the call (%v)", cerr)
+				}
+				if err := enc.Encode(&out); err != nil {
+					t.Fatal(err)
+				}
+			}
+		}
+		return
+	}
+	writeOne := func(out *c19NetOut) {
+		b, _ := json.Marshal(out)
+		tmp := os.Getenv("VERIF_C19_NET_ONE_OUT")
+		if err := os.WriteFile(tmp+".new", b, 0644); err != nil {
+			t.Fatal(err)
+		}
+		if err := os.Rename(tmp+".new", tmp); err != nil {
+			t.Fatal(err)
+		}
+	}
+	for si, sc := range scens {
 		for _, entry := range []string{"SynchronizedWithNetwork", "SynchronizedWithMasterAndNetwork"} {
+			if one != fmt.Sprintf("%d:%s", si, entry) {
+				continue
+			}
 			nodes := make([]*c19Node, len(sc.offsets))
 			addrs := make([]string, len(sc.offsets))
 			for i := range sc.offsets {
@@ -747,6 +800,8 @@ func TestVerifC19Net(t *testing.T) {
 					out.Offsets = append(out.Offsets, sc.offsets[i].String())
 				}
 			}
+			out.Verdict = "exit"
+			writeOne(&out)
 			func() {
 				old := *DisableTimesafeguard
 				*DisableTimesafeguard = sc.flag
@@ -780,9 +835,7 @@ func TestVerifC19Net(t *testing.T) {
 					nd.srv.Close()
 				}
 			}
-			if err := enc.Encode(&out); err != nil {
-				t.Fatal(err)
-			}
+			writeOne(&out)
 		}
 	}
 }
